@@ -112,7 +112,7 @@ def run(run):
     for a in pr:
         t = a.split()
         fq.append(int(t[2]) if t[0] == "ok" else 0)
-    n_random = 3000 if quick else 60000
+    n_random = run.n(3000, 60000)
     for _ in range(n_random):
         cells.append(gen.rand_cell(rng, lo=6))
     for c in cells:
@@ -121,7 +121,7 @@ def run(run):
         o, sg, s, r = tuple_of(c, fq)
         reqs.append(f"serialize {o} {sg} {s} {r}")
     # invalid descriptions and malformed ids
-    for _ in range(2000 if quick else 40000):
+    for _ in range(run.n(2000, 40000)):
         reqs.append(f"deserialize {gen.malformed_id(rng)}")
         reqs.append(f"get_resolution {gen.malformed_id(rng)}")
         r = rng.choice([-3, -2, -1, 0, 1, 2, 3, 15, 28, 29, 30, 31, 40])
@@ -130,15 +130,15 @@ def run(run):
         reqs.append(f"serialize {rng.randrange(14)} {rng.randrange(7)} {s} {r}")
     # hex
     hexvals = [0, 1, 15, 16, 255, 2 ** 63, 2 ** 64 - 1, 2 ** 32, 2 ** 58, 0x03ffffffffffffff] + [1 << k for k in range(64)]
-    hexvals += [gen.rand_cell(rng) for _ in range(500 if quick else 20000)]
-    hexvals += [rng.getrandbits(rng.randint(1, 64)) for _ in range(500 if quick else 20000)]
+    hexvals += [gen.rand_cell(rng) for _ in range(run.n(500, 20000))]
+    hexvals += [rng.getrandbits(rng.randint(1, 64)) for _ in range(run.n(500, 20000))]
     for n in hexvals:
         reqs.append(f"u64_to_hex {n}")
         reqs.append("hex_to_u64 " + format(n, "x").encode().hex())
     alphabet = list("0123456789abcdefABCDEF") * 3 + list("+-_xg \0") + ["é", "٣", "Ａ"]
     strings = ["", "+", "-", "-1", "0x10", " 1", "1 ", "ff_ff", "é", "+ff", "++1", "+-1", "0" * 20 + "1", "f" * 16, "1" + "0" * 16,
                "F" * 16, "ffffffffffffffff0", "10000000000000000", "+0", "00", "g"]
-    for _ in range(3000 if quick else 100000):
+    for _ in range(run.n(3000, 100000)):
         L = rng.choice([0, 1, 2, 3, 8, 15, 16, 17, 18, 20])
         if rng.random() < 0.6:
             strings.append("".join(rng.choice("0123456789abcdefABCDEF") for _ in range(L)))
